@@ -109,12 +109,16 @@ def run_harness(pid, rep, mode, inputs, trace, extra=()):
         raise vlib.ToolError("vh-wire %s exited %d: %s" % (mode, p.returncode, (p.stderr or "")[-800:]))
 
 
+_LINES = {}
+
+
 def input_line(inputs, idx):
-    with open(inputs) as f:
-        for i, line in enumerate(f):
-            if i == idx:
-                return json.loads(line)
-    return None
+    if inputs not in _LINES:
+        with open(inputs) as f:
+            _LINES.clear()
+            _LINES[inputs] = f.readlines()
+    ls = _LINES[inputs]
+    return json.loads(ls[idx]) if 0 <= idx < len(ls) else None
 
 
 def validate_soft(pid, trace, nchunks=None):
